@@ -555,231 +555,4 @@ theorem skipped_count (tls : List TLine) (nf nl : Nat) (hb : brkOk tls) (h : tls
     omega
   · exact countP_pos_of_pair tls hb nf _ (by omega) (by omega)
 
-/-! ## the stored widths do not influence what is printed -/
-
-/-- `ReprColumn.clone()`: the column without its negotiated width -/
-def Col.reset (c : Col) : Col := { c with width := Option.none }
-
-/-- the same columns with other values in the `width` slot -/
-def rew (k : Col × Nat → Option Nat) (ws : List (Col × Nat)) : List (Col × Nat) :=
-  ws.map fun cw => ({ cw.1 with width := k cw }, cw.2)
-
-theorem rew_widths (k) (ws : List (Col × Nat)) : (rew k ws).map (·.2) = ws.map (·.2) := by
-  simp [rew, List.map_map, Function.comp_def]
-
-theorem rew_ne (k) (ws : List (Col × Nat)) : rew k ws = [] ↔ ws = [] := by simp [rew]
-
-theorem recordCells_rew (k) (r : Record) (ws : List (Col × Nat)) :
-    recordCells r (rew k ws) = recordCells r ws := by
-  induction ws with
-  | nil => rfl
-  | cons cw cs ih =>
-    obtain ⟨c, w⟩ := cw
-    simp only [rew, List.map_cons] at ih ⊢
-    simp only [recordCells, ih]
-
-theorem titleCells_rew (k) (i : Nat) (ws : List (Col × Nat)) : titleCells i (rew k ws) = titleCells i ws := by
-  induction ws with
-  | nil => rfl
-  | cons cw cs ih =>
-    obtain ⟨c, w⟩ := cw
-    simp only [rew, List.map_cons] at ih ⊢
-    simp only [titleCells, ih]
-
-theorem bodyLines_rew (k) (ws : List (Col × Nat)) (tw : Nat) (n : Int) (tls : List TLine) :
-    bodyLines (rew k ws) tw n tls = bodyLines ws tw n tls := by
-  induction tls with
-  | nil => rfl
-  | cons t ts ih =>
-    have : bodyLine (rew k ws) tw n t = bodyLine ws tw n t := by
-      cases t <;> simp [bodyLine, recordCells_rew]
-    simp only [bodyLines, this, ih]
-
-theorem titleCount_rew (k) (ws : List (Col × Nat)) : titleCount (rew k ws) = titleCount ws := by
-  simp [titleCount, rew, List.map_map, Function.comp_def]
-
-theorem titleLinesOf_rew (k) (ws : List (Col × Nat)) (n : Nat) : titleLinesOf (rew k ws) n = titleLinesOf ws n := by
-  simp [titleLinesOf, titleCells_rew]
-
-theorem borderLine_rew (k) (ws : List (Col × Nat)) : borderLine (rew k ws) = borderLine ws := by
-  simp [borderLine, rew_widths]
-
-theorem setWidths_rew (k) (ws : List (Col × Nat)) : setWidths (rew k ws) = setWidths ws := by
-  simp [setWidths, rew, List.map_map, Function.comp_def]
-
-theorem breakFields_map_width (cols : List Col) (k : Col → Option Nat) :
-    breakFields (cols.map fun c => { c with width := k c }) = breakFields cols := by
-  induction cols with
-  | nil => rfl
-  | cons c cs ih =>
-    simp only [breakFields, List.map_cons, List.filter_cons] at ih ⊢
-    by_cases hb : c.breakBy = true <;> simp [hb, ih]
-
-theorem breakFields_setWidths (ws : List (Col × Nat)) :
-    breakFields (setWidths ws) = breakFields (ws.map (·.1)) := by
-  induction ws with
-  | nil => rfl
-  | cons cw cs ih =>
-    simp only [breakFields, setWidths, List.map_cons, List.filter_cons] at ih ⊢
-    by_cases hb : cw.1.breakBy = true <;> simp [hb, ih]
-
-theorem finalWidths_cols (cols : List Col) (vis : List Record) (ws : List (Col × Nat))
-    (h : finalWidths cols vis = .ok ws) : ws.map (·.1) = cols := by
-  unfold finalWidths at h
-  split at h
-  · clear vis
-    induction cols generalizing ws with
-    | nil => simp [List.mapM_nil, pure, Except.pure] at h; subst h; rfl
-    | cons c cs ih =>
-      rename_i hall
-      rw [List.mapM_cons] at h
-      simp only [bind_ok] at h
-      obtain ⟨cw, hcw, rest, hr, h⟩ := h
-      simp only [pure, Except.pure, Except.ok.injEq] at h
-      subst h
-      cases hw : c.width with
-      | none => simp [hw] at hcw
-      | some w =>
-        simp only [hw, Except.ok.injEq] at hcw
-        subst hcw
-        have hall' : (cs.all fun c => c.width.isSome) = true := by
-          simp only [List.all_cons, Bool.and_eq_true] at hall; exact hall.2
-        simp [ih rest hall' hr]
-  · exact (detectWidths_ok cols vis ws h).1
-
-/-- printing with all widths present uses exactly those widths -/
-theorem finalWidths_setWidths (ws : List (Col × Nat)) (vis : List Record) :
-    finalWidths (setWidths ws) vis = .ok (rew (fun cw => some cw.2) ws) := by
-  unfold finalWidths
-  have hall : ((setWidths ws).all fun c => c.width.isSome) = true := by
-    simp [setWidths, List.all_map]
-  rw [if_pos hall]
-  clear hall
-  induction ws with
-  | nil => rfl
-  | cons cw cs ih =>
-    simp only [setWidths, List.map_cons] at ih ⊢
-    rw [List.mapM_cons, ih]
-    rfl
-
-/-- the printed lines of a table -/
-def lines (t : Tbl) : Except Err (List Line) :=
-  match render t with
-  | .ok (_, ls) => .ok ls
-  | .error e => .error e
-
-theorem lines_of_render {t t' : Tbl} {ls : List Line} (h : render t = .ok (t', ls)) : lines t = .ok ls := by
-  simp [lines, h]
-
-/-- printing a second time prints the same lines and leaves the state alone -/
-theorem render_idem {t t' : Tbl} {ls : List Line} (h : render t = .ok (t', ls)) : render t' = .ok (t', ls) := by
-  obtain ⟨tls, ws, nTitle, body, R⟩ := render_elim h
-  have hcols := finalWidths_cols _ _ _ R.ws_eq
-  have hst := R.state_eq
-  have hls := R.lines_eq
-  subst hst
-  have hb : breakFields (printed t ws (applyLimits t.fmt.limF t.fmt.limL tls t.records.length).2).fmt.cols
-      = breakFields t.fmt.cols := by
-    simp only [printed]
-    rw [breakFields_setWidths, hcols]
-  have hne : rew (fun cw => some cw.2) ws ≠ [] := by
-    intro e; exact R.ws_ne ((rew_ne _ _).mp e)
-  have := @render_intro (printed t ws (applyLimits t.fmt.limF t.fmt.limL tls t.records.length).2) tls
-    (rew (fun cw => some cw.2) ws) nTitle body
-    (by rw [hb]; exact R.tls_eq)
-    (by simp only [printed]; exact finalWidths_setWidths ws _)
-    hne
-    (by rw [titleCount_rew]; exact R.title_eq)
-    (by simp only [printed, rew_widths, bodyLines_rew]; exact R.body_eq)
-  rw [this, hls]
-  simp only [printed, rew_widths, borderLine_rew, titleLinesOf_rew, setWidths_rew]
-  rfl
-
-/-- the printed lines as a function of what they depend on: records, header, footer, columns and
-the effect of the limits on the body lines -/
-def linesWith (records : List Record) (header : Option (List Char)) (footer : List Char) (cols : List Col)
-    (lim : List TLine → List TLine × Int) : Except Err (List Line) := do
-  let tls ← mkTableLines (breakFields cols) Option.none records
-  let ws ← finalWidths cols ((lim tls).1.filterMap TLine.row?)
-  if ws.isEmpty then .error .assertion else
-  let nTitle ← titleCount ws
-  let body ← bodyLines ws (tableWidth (ws.map (·.2))) (lim tls).2 (lim tls).1
-  .ok ([borderLine ws] ++ headerLinesOf header (tableWidth (ws.map (·.2))) ++ titleLinesOf ws nTitle
-    ++ [borderLine ws] ++ body ++ [borderLine ws] ++ footerLinesOf footer (tableWidth (ws.map (·.2))))
-
-theorem lines_eq_linesWith (t : Tbl) :
-    lines t = linesWith t.records t.header t.footer t.fmt.cols
-      (fun tls => applyLimits t.fmt.limF t.fmt.limL tls t.records.length) := by
-  unfold lines render linesWith
-  simp only [bind, Except.bind]
-  cases mkTableLines (breakFields t.fmt.cols) Option.none t.records with
-  | error e => rfl
-  | ok tls =>
-    simp only
-    cases finalWidths t.fmt.cols
-        ((applyLimits t.fmt.limF t.fmt.limL tls t.records.length).1.filterMap TLine.row?) with
-    | error e => rfl
-    | ok ws =>
-      simp only
-      cases hws : ws.isEmpty with
-      | true => rfl
-      | false =>
-        simp only [Bool.false_eq_true, if_false]
-        cases titleCount ws with
-        | error e => rfl
-        | ok n =>
-          simp only
-          cases bodyLines ws (tableWidth (ws.map (·.2)))
-              (applyLimits t.fmt.limF t.fmt.limL tls t.records.length).2
-              (applyLimits t.fmt.limF t.fmt.limL tls t.records.length).1 with
-          | error e => rfl
-          | ok body => rfl
-
-theorem linesWith_congr (records : List Record) (header : Option (List Char)) (footer : List Char)
-    (cols : List Col) (lim lim' : List TLine → List TLine × Int)
-    (h : ∀ tls, mkTableLines (breakFields cols) Option.none records = .ok tls → lim tls = lim' tls) :
-    linesWith records header footer cols lim = linesWith records header footer cols lim' := by
-  unfold linesWith
-  cases hm : mkTableLines (breakFields cols) Option.none records with
-  | error e => rfl
-  | ok tls => simp only [bind, Except.bind, h tls hm]
-
-/-- the table as if it had never been printed -/
-def fresh (t : Tbl) : Tbl :=
-  { t with fmt := { t.fmt with cols := t.fmt.cols.map Col.reset, anySkipped := Option.none } }
-
-theorem reset_setWidths (ws : List (Col × Nat)) : (setWidths ws).map Col.reset = (ws.map (·.1)).map Col.reset := by
-  simp [setWidths, Col.reset, List.map_map, Function.comp_def]
-
-theorem map_reset_of_fresh (cols : List Col) (h : ∀ c ∈ cols, c.width = Option.none) : cols.map Col.reset = cols := by
-  induction cols with
-  | nil => rfl
-  | cons c cs ih =>
-    have hc := h c (by simp)
-    simp only [List.map_cons, ih (fun x hx => h x (List.mem_cons_of_mem _ hx))]
-    congr 1
-    cases c
-    simp only at hc
-    subst hc
-    rfl
-
-/-- printing does not depend on the stored widths: the invariant of all reachable tables -/
-def WidthsFaithful (t : Tbl) : Prop := lines t = lines (fresh t)
-
-theorem widthsFaithful_of_fresh (t : Tbl) (h : ∀ c ∈ t.fmt.cols, c.width = Option.none) : WidthsFaithful t := by
-  unfold WidthsFaithful
-  rw [lines_eq_linesWith, lines_eq_linesWith]
-  simp only [fresh, map_reset_of_fresh _ h]
-
-theorem widthsFaithful_render {t t' : Tbl} {ls : List Line} (h : render t = .ok (t', ls))
-    (hw : WidthsFaithful t) : WidthsFaithful t' := by
-  obtain ⟨tls, ws, nTitle, body, R⟩ := render_elim h
-  have hcols := finalWidths_cols _ _ _ R.ws_eq
-  unfold WidthsFaithful at hw ⊢
-  rw [lines_of_render (render_idem h), ← lines_of_render h, hw]
-  have : fresh t' = fresh t := by
-    rw [R.state_eq]
-    simp only [fresh, printed, reset_setWidths, hcols]
-  rw [this]
-
 end Table
